@@ -456,7 +456,11 @@ Fixpoint cache_trace (gs : list graph) (es : list engine) (qs : list query) (c :
 
 (** histories in which the caller edits graph OBJECTS in place between queries: [HEdit i k] turns object i into the graph
     value k of the case; the object keeps its identity, so its cache entries stay (and go stale, as the class documents) *)
-Inductive hstep := HQ (q : query) | HEdit (i k : nat).
+Inductive hstep := HQ (q : query) | HEdit (i k : nat) | HNew (i k : nat).
+(** [HNew i k]: a NEW graph object takes the place of object i, holding graph value k — e.g. derived from another object of the
+    history with copy() / subgraph(...).copy() / relabel_nodes and then edited.  The old object is gone and with it its entries of
+    the weak table; the new object has none. *)
+Definition drop_obj (i : nat) (c : cache) : cache := filter (fun kh : ckey * hist => negb (Nat.eqb (fst (fst kh)) i)) c.
 Fixpoint set_nth {X : Type} (l : list X) (i : nat) (x : X) : list X :=
   match l, i with
   | [], _ => []
@@ -468,12 +472,14 @@ Fixpoint hist_trace (gs0 cur : list graph) (es : list engine) (hs : list hstep) 
   | [] => []
   | HQ q :: r => let c' := snd (step cur es q c) in map fst c' :: hist_trace gs0 cur es r c'
   | HEdit i k :: r => hist_trace gs0 (set_nth cur i (gnth gs0 k)) es r c
+  | HNew i k :: r => hist_trace gs0 (set_nth cur i (gnth gs0 k)) es r (drop_obj i c)
   end.
 Fixpoint run_hist (gs0 cur : list graph) (es : list engine) (hs : list hstep) (c : cache) : list tok * cache :=
   match hs with
   | [] => ([], c)
   | HQ q :: r => let '(t, c') := step cur es q c in let '(ts, c'') := run_hist gs0 cur es r c' in (t :: ts, c'')
   | HEdit i k :: r => run_hist gs0 (set_nth cur i (gnth gs0 k)) es r c
+  | HNew i k :: r => run_hist gs0 (set_nth cur i (gnth gs0 k)) es r (drop_obj i c)
   end.
 End WithVF2.
 
